@@ -132,6 +132,27 @@ Proof.
   - intros a rest. exact (ext_code_load_failure_is_exit1 CODE_FLUSHES c w a rest).
 Qed.
 
+(* an input that cannot be read (stdin failure, missing / unreadable file) or loaded: exit 1 and nothing else *)
+Theorem C12_input_failure_is_exit1 : forall c w,
+  w_clap_ok w = true -> (c_string c && c_yaml c) = false ->
+  (load_input c w = None -> run c w = fail_result []) /\
+  (c_exec c = false -> c_input c = s_minus -> w_stdin w = None -> run c w = fail_result []).
+Proof.
+  intros c w Hclap Hsy. split.
+  - intros Hl. exact (input_failure_is_exit1 CODE_FLUSHES c w Hclap Hsy Hl).
+  - intros He Hi Hs. exact (input_failure_is_exit1 CODE_FLUSHES c w Hclap Hsy (stdin_failure_no_load c w He Hi Hs)).
+Qed.
+
+(* top-level arguments given twice, or given to a program that is not a function, never end with exit 0 *)
+Theorem C12_tla_misuse_never_succeeds : forall c w tla warned,
+  (forall v params, w_shape w v = ShFunc params -> NoDup (map fst params)) ->
+  all_tla c w = Some (tla, warned) ->
+  (~ NoDup (map fst tla) \/
+   (tla <> [] /\ forall s id v, load_input c w = Some id -> w_eval w s (ThLoaded id) = Some v ->
+                                forall params, w_shape w v <> ShFunc params)) ->
+  r_exit (run c w) <> 0.
+Proof. intros c w. exact (tla_misuse_never_succeeds CODE_FLUSHES c w). Qed.
+
 (* var[=val] and var=file split at the first '=' *)
 Theorem C12_var_split_at_first_eq : forall k v, ~ In EQ k ->
   parse_var_opt_val (k ++ EQ :: v) = {| vo_var := k; vo_val := Some v |} /\
@@ -178,6 +199,8 @@ Print Assumptions C12_no_trailing_newline_only_last.
 Print Assumptions C12_tla_bind_by_name.
 Print Assumptions C12_tla_bind_permutation.
 Print Assumptions C12_ext_code_lazy.
+Print Assumptions C12_input_failure_is_exit1.
+Print Assumptions C12_tla_misuse_never_succeeds.
 Print Assumptions C12_var_split_at_first_eq.
 Print Assumptions C12_no_panic.
 Print Assumptions C12_needs_flush.
